@@ -563,21 +563,48 @@ func genConc(t *rapid.T) *Case {
 		c.ClientMsize = 65536
 	}
 	u := int64(nm) - iohdrsz
+	// every second case: one or two further connections with other msizes to
+	// the same server; each goroutine works over one of the connections
+	us := []int64{u}
+	if rapid.Bool().Draw(t, "more_conns") {
+		c.ClientMsize, c.ServerMsize = nm, 65536
+		for k := rapid.IntRange(1, 2).Draw(t, "nconns"); k > 0; k-- {
+			var other []uint32
+			for _, v := range concMsizes {
+				if v != nm {
+					other = append(other, v)
+				}
+			}
+			cs := ConnSpec{ClientMsize: rapid.SampledFrom(other).Draw(t, "conn_msize"), Plain: rapid.IntRange(0, 2).Draw(t, "conn_plain") == 0}
+			c.Conc.Conns = append(c.Conc.Conns, cs)
+			us = append(us, int64(cs.ClientMsize)-iohdrsz)
+		}
+	}
 	nw := rapid.IntRange(2, 16).Draw(t, "writers")
 	nr := rapid.IntRange(0, 4).Draw(t, "readers")
-	// keep the volume per case bounded (about 2 MB at the largest msize)
-	maxChunk := u + u/2
-	if maxChunk > 6000 {
-		maxChunk = 6000
+	if len(us) > 1 && nr == 0 {
+		nr = 2
 	}
 	nchunks := rapid.IntRange(8, 120).Draw(t, "chunks")
-	lens := []int64{1, 13, u - 1, u, u + 1, maxChunk}
+	u0 := u
 	for i := 0; i < nw; i++ {
+		wconn := 0
+		if len(us) > 1 {
+			wconn = rapid.IntRange(0, len(us)-1).Draw(t, "wconn")
+		}
+		u := us[wconn]
+		// keep the volume per case bounded (about 2 MB at the largest msize)
+		maxChunk := u + u/2
+		if maxChunk > 6000 {
+			maxChunk = 6000
+		}
+		lens := []int64{1, 13, u - 1, u, u + 1, maxChunk}
 		w := Writer{
 			Helper:   rapid.SampledFrom(writeKinds).Draw(t, "whelper"),
 			Create:   rapid.Bool().Draw(t, "wcreate"),
 			ReadBack: rapid.SampledFrom([]int{0, 0, 1, 3, 7}).Draw(t, "readback"),
 			Seed:     rapid.Uint64().Draw(t, "wseed"),
+			Conn:     wconn,
 		}
 		if !w.Create {
 			w.InitLen = int(clamp(rapid.SampledFrom([]int64{0, 1, u - 1, u, u + 1, 2*u + 1}).Draw(t, "winit"), 0, 20000))
@@ -594,7 +621,13 @@ func genConc(t *rapid.T) *Case {
 		c.Conc.Writers = append(c.Conc.Writers, w)
 	}
 	for i := 0; i < nr; i++ {
+		rconn := 0
+		if len(us) > 1 {
+			rconn = rapid.IntRange(0, len(us)-1).Draw(t, "rconn")
+		}
+		u := us[rconn]
 		c.Conc.Readers = append(c.Conc.Readers, Reader{
+			Conn:   rconn,
 			Len:    int(clamp(rapid.SampledFrom([]int64{0, 1, u, u + 1, 3*u + 1, 5 * u}).Draw(t, "rlen"), 0, 40000)),
 			Seed:   rapid.Uint64().Draw(t, "rseed"),
 			Helper: rapid.SampledFrom(readKinds).Draw(t, "rhelper"),
@@ -607,7 +640,13 @@ func genConc(t *rapid.T) *Case {
 			r.Count = lo
 		}
 	}
-	// files whose single fid is used by several goroutines at once (shared.go)
+	// files whose single fid is used by several goroutines at once (shared.go);
+	// they live on the case's own client
+	u = u0
+	maxChunk := u + u/2
+	if maxChunk > 6000 {
+		maxChunk = 6000
+	}
 	ns := rapid.SampledFrom([]int{0, 1, 1, 1, 2, 3}).Draw(t, "shared")
 	for i := 0; i < ns; i++ {
 		s := Shared{
